@@ -58,7 +58,10 @@ func falcoDir(files map[string]string, args ...string) runRes {
 	for _, n := range names {
 		fw.JournalS(n + ":\n" + files[n])
 	}
-	argv := append([]string{"test"}, args...)
+	argv := []string{"test"}
+	for _, a := range args {
+		argv = append(argv, strings.ReplaceAll(strings.ReplaceAll(a, "@DIR@", dir), "@BASE@", filepath.Base(dir)))
+	}
 	argv = append(argv, "main.vcl")
 	cmd := exec.Command(fw.FalcoBin(), argv...)
 	cmd.Dir = dir
@@ -191,10 +194,24 @@ func runMulti(oc *fw.Outcome, k int) {
 			firstFailing = []string{"first", "middle", "last"}[i]
 		}
 	}
-	for _, mode := range []string{"plain", "json"} {
+	// the directory of the test files named once (relative main file) or twice (an include path that is the same
+	// directory, spelled absolutely or as "."): every test file is run and reported once
+	modes := []string{"plain", "json"}
+	if k%3 == 0 {
+		modes = append(modes, "plain+I-abs", "json+I-abs", "json+I-dot", "json+I-abs-twice")
+	}
+	for _, mode := range modes {
 		var args []string
-		if mode == "json" {
+		if strings.HasPrefix(mode, "json") {
 			args = []string{"-json"}
+		}
+		switch {
+		case strings.HasSuffix(mode, "+I-abs"):
+			args = append(args, "-I", "@DIR@")
+		case strings.HasSuffix(mode, "+I-dot"):
+			args = append(args, "-I", ".")
+		case strings.HasSuffix(mode, "+I-abs-twice"):
+			args = append(args, "-I", "@DIR@", "-I", "@DIR@/../"+"@BASE@")
 		}
 		rr := falcoDir(files, args...)
 		oc.Evals++
@@ -202,6 +219,8 @@ func runMulti(oc *fw.Outcome, k int) {
 			oc.Violate("multi:crash/"+mode, "falco test crashed or hung on several test files", detail(rr))
 			continue
 		}
+		fullMode := mode
+		mode, _, _ = strings.Cut(mode, "+")
 		if (rr.exit != 0) != (wantExit != 0) {
 			oc.Violate(fmt.Sprintf("multi:exit/%s/last-failing-file=%s", mode, firstFailing), fmt.Sprintf("exit status %d with %d failed tests over three files (%s)", rr.exit, fail, shape), detail(rr))
 			continue
@@ -209,6 +228,10 @@ func runMulti(oc *fw.Outcome, k int) {
 		if mode == "json" {
 			if err := rr.parseJSON(); err != nil {
 				oc.Violate("multi:json/unparseable", "falco test -json did not print a JSON document: "+err.Error(), detail(rr))
+				continue
+			}
+			if len(rr.j.Tests) != len(per) {
+				oc.Violate("multi:json/file-count", fmt.Sprintf("%d entries in tests[] for %d test files (%s, %s)", len(rr.j.Tests), len(per), shape, fullMode), detail(rr))
 				continue
 			}
 			gotPer := map[string][3]int{}
@@ -250,8 +273,8 @@ func runMulti(oc *fw.Outcome, k int) {
 				oc.Violate("multi:plain/summary", fmt.Sprintf("summary passed/failed/skipped/total %s, constructed %s (%s)", got, want, shape), detail(rr))
 			}
 		}
-		oc.Tag("multi:" + mode + ":last-failing-file=" + firstFailing)
-		oc.NonTrivialS(mode + shape)
+		oc.Tag("multi:" + fullMode + ":last-failing-file=" + firstFailing)
+		oc.NonTrivialS(fullMode + shape)
 	}
 }
 
